@@ -191,7 +191,7 @@ def judge_single(call, chk, probe=None):
         P('offset-used')
         for nm in call.get('endo_offset', endo):  # (the instance's own list, where the caller has edited it)
             start[nm][tn] = snap[nm][tn + off]
-    init_check = [float(start[nm][tn]) for nm in check]
+    init_check = [_num(start[nm][tn]) for nm in check]
 
     # ---- pre-existing non-finite under 'raise'
     if opts['errors'] == 'raise' and nonfinite(init_check):
@@ -221,8 +221,8 @@ def judge_single(call, chk, probe=None):
         # the copy must be in place before the first user code runs
         chk(
             'offset/copy-visible-to-pre-hook',
-            all(_eq(a, float(start[nm][tn])) for a, nm in zip(befores[0]['pre'], endo)),
-            {'seen': befores[0]['pre'], 'want': [float(start[nm][tn]) for nm in endo]},
+            all(_eq(a, _num(start[nm][tn])) for a, nm in zip(befores[0]['pre'], endo)),
+            {'seen': befores[0]['pre'], 'want': [_num(start[nm][tn]) for nm in endo]},
         )
 
     def status_unchanged(sig):
@@ -291,16 +291,16 @@ def judge_single(call, chk, probe=None):
                     chk('warning-statement/stores-without-catch_first_error', not math.isfinite(r['post_endo'][j]), {'after': r['post_endo'][j]})
     if call.get('scripted') and evals and opts['errors'] != 'replace':
         last = evals[-1]
-        ok = all(_eq(float(post[nm][tn]), v) for nm, v in zip(endo, last['post_endo']))
-        chk('values/period-holds-last-pass', ok, {'stored': [float(post[nm][tn]) for nm in endo], 'last-pass': last['post_endo']})
+        ok = all(_eq(_num(post[nm][tn]), v) for nm, v in zip(endo, last['post_endo']))
+        chk('values/period-holds-last-pass', ok, {'stored': [_num(post[nm][tn]) for nm in endo], 'last-pass': last['post_endo']})
     if call.get('scripted') and not evals:
-        ok = all(_eq(float(post[nm][tn]), float(start[nm][tn])) for nm in endo)
+        ok = all(_eq(_num(post[nm][tn]), _num(start[nm][tn])) for nm in endo)
         chk('values/no-pass-only-offset-copy', ok, None)
     if call.get('scripted') and evals:
         chk(
             'offset/first-pass-sees-copy',
-            all(_eq(a, float(start[nm][tn])) for a, nm in zip(evals[0]['pre'], endo)),
-            {'seen': evals[0]['pre'], 'want': [float(start[nm][tn]) for nm in endo]},
+            all(_eq(a, _num(start[nm][tn])) for a, nm in zip(evals[0]['pre'], endo)),
+            {'seen': evals[0]['pre'], 'want': [_num(start[nm][tn]) for nm in endo]},
         )
 
     def bookkeeping(status, iters):
@@ -364,6 +364,12 @@ def judge_single(call, chk, probe=None):
             chk('failed/returns-False', out.get('kind') == 'return' and _is_bool(out.get('value'), False), {'got': exc_name or out.get('value'), 'opts': opts})
         return E
     raise AssertionError(end)
+
+
+def _num(x):
+    if isinstance(x, (np.integer, np.bool_)):
+        return int(x)
+    return x.item() if isinstance(x, np.generic) else x
 
 
 def _eq(a, b):
